@@ -166,6 +166,10 @@ class Interp:
             for rpc, tt in t[1]:
                 out.extend(self.expand_cases(pc + tuple(rpc), tt))
             return out
+        if t[0] == "phi" and _has_alternatives(t):
+            # a single exit returning a conditional object is two exits
+            return self.expand_cases(pc + (t[1],), t[2]) + \
+                self.expand_cases(pc + (("not", t[1]),), t[3])
         if t[0] == "tuple":
             for i, el in enumerate(t[1]):
                 if el[0] == "phi" and _has_alternatives(el):
@@ -334,6 +338,13 @@ class Interp:
         if s1 is None and s2 is None:
             return None
         if s1 is None:
+            # `if not isinstance(x, C): raise/return` narrows x for the rest, like the assert form
+            t = c[1] if c[0] == "not" else None
+            if t is not None and t[0] == "call" and t[1] == "builtins.isinstance" \
+                    and len(t[2]) == 2 and t[2][1][0] == "classref" \
+                    and t[2][0][0] in ("attr", "param"):
+                self.assumed_types[t[2][0]] = t[2][1][1]
+                s2.pc = s2.pc + (("fact", t),)
             return s2
         if s2 is None:
             return s1
@@ -679,13 +690,38 @@ class Interp:
             self.heap[oid] = {"kind": "dict", "items": {}, "dyn": [], "pc0": (), "const": True}
             for k, x in v.items():
                 self.heap[oid]["items"][k] = self._const_term(x) \
-                    if not type(x).__name__ == "_Unfolded" else ("unknown", x.text)
+                    if not type(x).__name__ == "_Unfolded" else self._typeish(x.text)
             return ("dictobj", oid)
         try:
             hash(v)
         except TypeError:
             return ("unknown", repr(v))
         return C(v)
+
+    @staticmethod
+    def _typeish(text):
+        """value of a table entry the constant folder left symbolic: builtin type names and tuples
+        of them (type tables such as {"subnets": list, "os": (str, None)}) are known values"""
+        names = {"int", "float", "str", "list", "dict", "tuple", "set", "bool", "bytes", "object",
+                 "None"}
+
+        def one(t):
+            t = t.strip()
+            if t == "None":
+                return C(None)
+            if t in names:
+                return ("ext", "builtins." + t)
+            return None
+        t = text.strip()
+        r = one(t)
+        if r is not None:
+            return r
+        if t.startswith("(") and t.endswith(")"):
+            parts = [p for p in t[1:-1].split(",") if p.strip()]
+            rs = [one(p) for p in parts]
+            if rs and all(x is not None for x in rs):
+                return ("tuple", tuple(rs))
+        return ("unknown", text)
 
     def _opaque(self, act, what, loc):
         """record a construct whose effect is treated as unknown, with the files of every function
@@ -1005,6 +1041,9 @@ class Interp:
         return a if a == b else ("phi", c, a, b)
 
     def _comp(self, kind, e, elt_nodes, st, act):
+        r = self._comp_unrolled(kind, e, elt_nodes, st, act)
+        if r is not None:
+            return r
         inner = st.fork()
         gens = []
         for g in e.generators:
@@ -1032,6 +1071,48 @@ class Interp:
             gens.append((lid, it, conds))
         elts = tuple(self._eval(x, inner, act) for x in elt_nodes)
         return ("comp", kind, elts, tuple(gens))
+
+    def _comp_unrolled(self, kind, e, elt_nodes, st, act):
+        """a list / dict comprehension with one generator over a literal sequence (a table written
+        in the source, <= 16 entries) whose conditions fold to constants is the literal it spells"""
+        if kind not in ("list", "dict") or len(e.generators) != 1:
+            return None
+        g = e.generators[0]
+        probe = st.fork()
+        it = self._eval(g.iter, probe, act)
+        elts = self._literal_elements(it)
+        if elts is None or len(elts) > 16:
+            return None
+        out = []
+        for el in elts:
+            inner = st.fork()
+            self._assign(g.target, el, inner, act, e)
+            keep = True
+            for c in g.ifs:
+                tc = truth_const(self._eval(c, inner, act))
+                if tc is None:
+                    return None
+                if not tc:
+                    keep = False
+                    break
+            if keep:
+                out.append(tuple(self._eval(x, inner, act) for x in elt_nodes))
+        oid = self.new_id()
+        site = f"{act.fi.module.path}:{e.lineno}"
+        if kind == "list":
+            self.heap[oid] = {"kind": "list", "elts": [x[0] for x in out], "dyn": [],
+                              "pc0": st.pc, "site": site}
+            return ("listobj", oid)
+        if not all(is_const(k) for k, _ in out):
+            return None
+        h = {"kind": "dict", "items": {}, "dyn": [], "pc0": st.pc, "site": site}
+        for k, v in out:
+            try:
+                h["items"][k[1]] = v
+            except TypeError:
+                return None
+        self.heap[oid] = h
+        return ("dictobj", oid)
 
     def _e_ListComp(self, e, st, act):
         return self._comp("list", e, [e.elt], st, act)
